@@ -107,8 +107,13 @@ def main(tier, seed):
             want_echo = (eff if (N >= 1 and eff >= 1) else 0) - 1
             if multiobj and objno is None:
                 want_echo = 0 if N else -1
-            if want is not None and sol['objno'] != want_echo and not (N == 0):
+            if want is not None and sol['objno'] != want_echo:
                 res.append(('sol-objno-echo-differs', 'used objno %s, .sol says objno %d' % (eff, sol['objno'])))
+            # whatever the precedence between objno and multiobj: the echoed number is "the one that was used"
+            if (sol['objno'] == -1) != (len(got) == 0):
+                res.append(('sol-objno-echo-inconsistent-with-delivered-objectives', '%d objective(s) delivered, .sol says objno %d (-1 = none used)' % (len(got), sol['objno'])))
+            elif sol['objno'] >= 0 and sol['objno'] not in match:
+                res.append(('sol-objno-echo-names-an-objective-that-was-not-delivered', 'delivered NL objectives %s, .sol says objno %d' % (match, sol['objno'])))
         for ext in ('.nl', '.sol', '.trace'):
             try:
                 os.unlink(r['base'] + ext)
